@@ -11,8 +11,9 @@ theorems about the executable model of `dialect::OrthoPlanariser` (only theorems
   Proofs : Lemmas/PlanariseSort.lean (std::sort / partition), Lemmas/PlanariseSweep.lean (the sweep).
 -/
 import AdaptaVerif.Lemmas.PlanariseSweep
+import AdaptaVerif.Lemmas.PlanariseGood
 namespace AdaptaVerif.Props.C19Planarise
-open AdaptaVerif.Model.Planarise AdaptaVerif.Lemmas.Planarise
+open AdaptaVerif.Model.Planarise AdaptaVerif.Lemmas.Planarise AdaptaVerif.Check.Planarise
 
 /-! ### (0) the comparator -/
 
@@ -71,7 +72,75 @@ theorem planarise_preserves_nodes (inp : Input) : ∀ n ∈ inp.nodes, n ∈ (pl
   simp only [planarise]
   exact List.mem_append_left _ (List.mem_append_left _ hn)
 
-/-! ### (3) closed witnesses -/
+
+/-! ### (3) the sweep `computeCrossings` is sound and complete
+
+Hypothesis `Good S` (Lemmas/PlanariseSweep.lean; decidable form `goodB`, evaluated by the driver on the segment list
+the LIBRARY built from its overlap-free graph): every segment is axis-parallel, of positive length and stored as the
+`EdgeSegment` constructor stores it; any two x-coordinates (any two y-coordinates) of segment ends are equal or MORE
+THAN 1 APART (1 = the largest tolerance: in particular every segment is longer than the comparator's tolerance);
+two segments on one line do not overlap (they may share an end).  All three parts are needed: `short_segment_missorted`
+(length), and an overlap of verticals would overwrite the single `openV` pointer.
+
+The condition the sweep implements is  h.lo < v.cc ≤ h.hi  ∧  v.lo < h.cc < v.hi : it is a proper crossing, OR the
+right end of the horizontal lies on the interior of the vertical (`ttouch_asymmetric`: a SUSTAIN event is still active
+in the x-part in which its segment closes). -/
+
+/-- the condition under which the sweep reports a crossing of horizontal `h` and vertical `v` -/
+def SweepCross (h v : Seg) : Prop :=
+  h.ori = .H ∧ v.ori = .V ∧ h.lo < v.cc ∧ v.cc ≤ h.hi ∧ v.lo < h.cc ∧ h.cc < v.hi
+
+/-- `h` and `v` properly cross (the open segments meet transversally) -/
+def ProperCross (h v : Seg) : Prop :=
+  h.ori = .H ∧ v.ori = .V ∧ h.lo < v.cc ∧ v.cc < h.hi ∧ v.lo < h.cc ∧ h.cc < v.hi
+
+/-- **Soundness**, all segment lists: every crossing node lies at the meeting point of a horizontal and a vertical
+segment of the input that satisfy the sweep condition. -/
+theorem crossings_sound (S : List Seg) (nextId : Nat) (hG : Good S) :
+    ∀ c ∈ (computeCrossings S nextId).cross, ∃ h ∈ S, ∃ v ∈ S, SweepCross h v ∧ c.p = ⟨v.cc, h.cc⟩ := by
+  intro c hc
+  obtain ⟨i, k, si, sk, a, b, h1, h2, h3, h4, h5, h6, h7⟩ :=
+    (computeCrossings_spec hG nextId c.p).1 (List.mem_map.2 ⟨c, hc, rfl⟩)
+  exact ⟨si, List.mem_of_getElem? a, sk, List.mem_of_getElem? b, ⟨h1, h2, h3, h4, h5, h6⟩, h7⟩
+
+/-- **Completeness**, all segment lists: every pair satisfying the sweep condition gets a crossing node at its meeting point. -/
+theorem crossings_complete (S : List Seg) (nextId : Nat) (hG : Good S) :
+    ∀ h ∈ S, ∀ v ∈ S, SweepCross h v → ∃ c ∈ (computeCrossings S nextId).cross, c.p = ⟨v.cc, h.cc⟩ := by
+  intro h hh v hv ⟨h1, h2, h3, h4, h5, h6⟩
+  obtain ⟨i, hi⟩ := List.getElem?_of_mem hh
+  obtain ⟨k, hk⟩ := List.getElem?_of_mem hv
+  have := (computeCrossings_spec hG nextId ⟨v.cc, h.cc⟩).2 ⟨i, k, h, v, hi, hk, h1, h2, h3, h4, h5, h6, rfl⟩
+  obtain ⟨c, hc, hcp⟩ := List.mem_map.1 this
+  exact ⟨c, hc, hcp⟩
+
+/-- If no horizontal segment ends (right end) on the interior of a vertical one, the reported points are exactly the
+proper crossings. -/
+theorem crossings_iff_proper (S : List Seg) (nextId : Nat) (hG : Good S)
+    (hT : ∀ h ∈ S, ∀ v ∈ S, h.ori = .H → v.ori = .V → ¬ (h.hi = v.cc ∧ v.lo < h.cc ∧ h.cc < v.hi)) (p : Pt) :
+    p ∈ (computeCrossings S nextId).cross.map (·.p) ↔ ∃ h ∈ S, ∃ v ∈ S, ProperCross h v ∧ p = ⟨v.cc, h.cc⟩ := by
+  constructor
+  · intro hp
+    obtain ⟨c, hc, rfl⟩ := List.mem_map.1 hp
+    obtain ⟨h, hh, v, hv, ⟨h1, h2, h3, h4, h5, h6⟩, hcp⟩ := crossings_sound S nextId hG c hc
+    refine ⟨h, hh, v, hv, ⟨h1, h2, h3, ?_, h5, h6⟩, hcp⟩
+    have := hT h hh v hv h1 h2
+    grind
+  · rintro ⟨h, hh, v, hv, ⟨h1, h2, h3, h4, h5, h6⟩, rfl⟩
+    obtain ⟨c, hc, hcp⟩ := crossings_complete S nextId hG h hh v hv ⟨h1, h2, h3, Rat.le_of_lt h4, h5, h6⟩
+    exact List.mem_map.2 ⟨c, hc, hcp⟩
+
+/-- the executable test the driver applies is sound for the hypothesis -/
+theorem goodB_sound (S : List Seg) (h : goodB S = true) : Good S := AdaptaVerif.Lemmas.Planarise.goodB_sound h
+
+/-- non-vacuity: a 3×2 grid (three horizontals crossed by two verticals) satisfies the hypothesis, and the sweep
+reports its six crossings -/
+def gridSegs : List Seg :=
+  [mkSeg ⟨0, ⟨0, 0⟩⟩ ⟨1, ⟨30, 0⟩⟩, mkSeg ⟨2, ⟨0, 10⟩⟩ ⟨3, ⟨30, 10⟩⟩, mkSeg ⟨4, ⟨0, 20⟩⟩ ⟨5, ⟨30, 20⟩⟩,
+   mkSeg ⟨6, ⟨10, -5⟩⟩ ⟨7, ⟨10, 25⟩⟩, mkSeg ⟨8, ⟨20, -5⟩⟩ ⟨9, ⟨20, 25⟩⟩]
+example : Good gridSegs := goodB_sound _ (by decide +kernel)
+example : ((computeCrossings gridSegs 10).cross.map (·.p)).length = 6 := by decide +kernel
+
+/-! ### (4) closed witnesses -/
 
 def wA : Node := ⟨0, ⟨0, 0⟩⟩
 def wB : Node := ⟨1, ⟨60, 40⟩⟩
